@@ -669,6 +669,16 @@ theorem C18_wif_canonical (env : Env) (laws : CodecLaws env) (ke : KeyEnv) (net 
               unfold parseWif; simp only [hd, hp, hpre, if_false, h33, h32, if_true]; exact h
           · cases h
 
+/-! ## one `parseable_str` object, several networks and entry points -/
+
+/-- ★ the same for every one of the 35 entry points: on one shared `parseable_str` object, whatever was parsed before
+and for whichever network, each call answers what it answers on a fresh string (no verdict is remembered per string
+under a key that two networks could share) -/
+theorem C18_parse_history_network_independent (env : Env) (ke : KeyEnv) (text : String) (steps : List (Network × String)) :
+    historyRun env text (fun e (st : Network × String) => parseEntry e ke st.1 st.2 text) PsCache.empty steps =
+      steps.map (fun st => parseEntry env ke st.1 st.2 text) :=
+  historyRun_spec env text _ steps PsCache.empty ⟨Or.inl rfl, Or.inl rfl⟩
+
 /-! ## non-vacuity (evaluated in the kernel on a toy codec and curve) -/
 
 def toyKe : KeyEnv where
